@@ -117,7 +117,19 @@ GetItem(sel_) ==
                lp |-> Gather(pts, ix), lw |-> Gather(wts, ix)]
     /\ UNCHANGED <<pts, wts, tree>>
 
+\* Rejected calls (documented argument errors) are atomic: they raise and leave points, weights
+\* and the neighbour tree exactly as they were.
+\*   "neg-radius"  get_localgrid(c, -1.0)        "nan-radius"   get_localgrid(c, nan)
+\*   "bad-center"  centre of the wrong shape     "bad-points"   points assignment of the wrong shape
+\*   "bad-weights" weights assignment of the wrong shape
+RejectKinds == {"neg-radius", "nan-radius", "bad-center", "bad-points", "bad-weights"}
+Reject(kind_) ==
+    /\ kind_ \in RejectKinds
+    /\ obs' = [NoObs EXCEPT !.kind = "rejected"]
+    /\ UNCHANGED <<pts, wts, tree>>
+
 Next == \/ \E c_ \in Centers, r_ \in Radii : Query(c_, r_)
+        \/ \E k_ \in RejectKinds : Reject(k_)
         \/ \E pp_ \in PAlts : SetPoints(pp_)
         \/ \E ww_ \in WAlts : SetWeights(ww_)
         \/ \E s_ \in Sels : GetItem(s_)
@@ -137,6 +149,8 @@ TreeFresh == tree # None => tree = pts
 ItemCorrect ==
     obs.kind = "item" => /\ Len(obs.lp) = Len(obs.idx) /\ Len(obs.lw) = Len(obs.idx)
                          /\ \A k_ \in 1..Len(obs.idx) : obs.idx[k_] \in 0..Len(pts) - 1
+\* a rejected call changes nothing (action property)
+RejectIsAtomic == [][obs'.kind = "rejected" => pts' = pts /\ wts' = wts /\ tree' = tree]_vars
 \* non-vacuity witnesses (negated in the .cfg of the witness run: TLC must find them)
 WitnessEmptyBall == ~(obs.kind = "query" /\ obs.r # Inf /\ Len(obs.idx) = 0)
 WitnessReuseAfterSet == ~(obs.kind = "query" /\ tree # None /\ Len(obs.idx) > 0 /\ Len(obs.idx) < Len(pts))
